@@ -267,10 +267,26 @@ where
             .map(|variant| variant.emit_dispatch_leg())
     }
 
+    /// Names under which the variants are (de)serialized.
+    ///
+    /// The generated enums are renamed by serde (`rename_all = "snake_case"`), so the same
+    /// rule has to be used here: an underscore is inserted only in front of an upper case
+    /// letter. `convert_case` additionally splits on letter/digit boundaries
+    /// (`AddMember2` -> `add_member_2`), which would not match the wire format.
     pub fn as_names_snake_cased(&self) -> Vec<String> {
         self.variants
             .iter()
-            .map(|variant| variant.name.to_string().to_case(Case::Snake))
+            .map(|variant| {
+                let name = variant.name.to_string();
+                let mut snake = String::with_capacity(name.len() + 4);
+                for (i, ch) in name.char_indices() {
+                    if i > 0 && ch.is_uppercase() {
+                        snake.push('_');
+                    }
+                    snake.push(ch.to_ascii_lowercase());
+                }
+                snake
+            })
             .collect()
     }
 
